@@ -2892,3 +2892,17 @@ T("C07", "twin-end-exits-operator", CLC,
   "        end_nodes_with_exits = end_nodes.intersection(nodes_that_exit_loop)",
   "        end_nodes_with_exits = nodes_that_exit_loop & end_nodes",
   "operator spelling, operands swapped")
+
+# ---- crossed positional hand-offs (R1.26 / R5.23 / R7.23)
+M("C07", "handoff-crossed-filter", DL,
+  "        filter_and_replace_breaks_connected_to_end_events(graph, loop)",
+  "        filter_and_replace_breaks_connected_to_end_events(loop, graph)",
+  "R7.23", "graph and loop crossed")
+M("C01", "handoff-crossed-create-loop-event", DL,
+  "        loop_event = create_loop_event(loop, sub_graph, graph)",
+  "        loop_event = create_loop_event(sub_graph, loop, graph)",
+  "R1.26", "loop and body crossed")
+M("C05", "handoff-crossed-rotate", WALK,
+  "    previous_puml_node, previous_node_class = handle_rotate_path(\n            puml_graph, logic_list, previous_puml_node, previous_node_class\n        )",
+  "    previous_puml_node, previous_node_class = handle_rotate_path(\n            puml_graph, logic_list, previous_node_class, previous_puml_node\n        )",
+  "R5.23", "model node and diagram node crossed")
